@@ -5,4 +5,5 @@ namespace c11
 {
   void rt_q2(Tape& t, Ctx& c) { rt_case<MeshQ2>(t, c); }
   void fault_q2(Tape& t, Ctx& c) { fault_case<MeshQ2>(t, c); }
+  void init_files_main() { init_files(); }
 }
